@@ -387,8 +387,20 @@ def long_text_args(draw):
     unit = draw(st.sampled_from(["é", "営", "–", "x", "🙂", "ß"]))
     n = draw(st.integers(300, 2300))
     shift = draw(st.sampled_from(["", "x", "xy", "xyz"]))
-    kind = draw(st.integers(0, 3))
-    if kind == 0:
+    kind = draw(st.integers(0, 6))
+    if kind >= 4:
+        # shorter texts in the places the binding's logger may quote (the binding installs pyo3_log, so the
+        # library's warnings are formatted): a comment used as a selector label, Easter, odd day numbers
+        m = draw(st.integers(1, 90))
+        label = shift + unit * m
+        expr = draw(st.sampled_from([
+            f'"{label}":Mo-Fr 10:00-12:00',
+            f'"{label}":10:00-12:00 "{label}"',
+            f'Mo 08:00-09:00; "{label}":Sa,Su',
+            f'easter -2 days-easter +1 day "{label}"',
+            f'Jan 31-Feb 31 "{label}"',
+        ]))
+    elif kind == 0:
         expr = 'Mo-Fr 10:00-12:00 "' + shift + unit * n  # unbalanced quote
     elif kind == 1:
         expr = 'Mo-Fr 10:00-12:00 "' + shift + unit * n + '"'  # valid, long comment
